@@ -1,5 +1,7 @@
 CONSTANTS W = 3
 NMAX = 5
+FLO = 1
+FHI = 2
 INIT Init
 NEXT Next
 CHECK_DEADLOCK FALSE
@@ -7,5 +9,6 @@ INVARIANT I_SumFits
 INVARIANT I_ProdFits
 INVARIANT I_DotFits
 INVARIANT I_SumTight
+INVARIANT I_CumProdFits
 INVARIANT I_FoldsAgree
 INVARIANT Emit
